@@ -38,18 +38,28 @@ theorem AccS_handleStrBosOverflow_big (cfg : Cfg) (p n : Nat) (hn : n > RSIZE_MA
   · exact AccS_errRet cfg p 1 _ _ (fun a ⟨h1, h2⟩ => (show a = p by omega) ▸ h0) h0
   · exact AccS_errRet cfg p 0 _ _ hz h0
 
-/-- the `slen > srcbos` exit: `handle_str_bos_overflow(dest, destbos)` — inside `dmax` only when `destbos ≤ dmax` (or unknown) -/
+/-- the `slen > srcbos` exit: `handle_str_bos_overflow(dest, destbos)` measures and clears up to the OBJECT size (`hob`: the
+object's cells, when the size is known) -/
 theorem AccS_bosOverflow (cfg : Cfg) (dest dmax : Nat) (destbos : Bos) (hpos : dmax ≠ 0)
-    (hb : ∀ b, destbos = some b → b ≤ dmax)
-    (hr : ∀ a, Cells dest dmax a → R a) (hw : ∀ a, Cells dest dmax a → W a) :
+    (hob : ∀ b, destbos = some b → (∀ a, Cells dest b a → R a) ∧ (∀ a, Cells dest b a → W a))
+    (hle : ∀ b, destbos = some b → dmax ≤ b)
+    (hw : ∀ a, Cells dest dmax a → W a) :
     AccS R W d (handleStrBosOverflow cfg dest (destbos.getD (2^64 - 1))) (fun _ _ => True) := by
   have h0 : W dest := hw _ ⟨Nat.le_refl _, by omega⟩
   cases destbos with
   | none => exact AccS_handleStrBosOverflow_big cfg dest _ (by simp [RSIZE_MAX_STR]) h0
   | some b =>
-    have := hb b rfl
-    exact AccS_handleStrBosOverflow cfg dest b (fun a ⟨h1, h2⟩ => hr a ⟨h1, by omega⟩)
-      (fun a ⟨h1, h2⟩ => hw a ⟨h1, by omega⟩)
+    have := hle b rfl
+    have e : max b 1 = b := by omega
+    exact AccS_handleStrBosOverflow cfg dest b (hob b rfl).1 (by rw [e]; exact (hob b rfl).2)
+
+/-- what `hob` asks for follows from dest's `dmax` cells when the known object size does not exceed `dmax` on that exit -/
+theorem hob_of_hov {dest dmax slen : Nat} {db sb : Bos}
+    (hov : ∀ b s, db = some b → sb = some s → s < slen → b ≤ dmax)
+    (hr : ∀ a, Cells dest dmax a → R a) (hw : ∀ a, Cells dest dmax a → W a) :
+    ∀ b s, db = some b → sb = some s → s < slen → (∀ a, Cells dest b a → R a) ∧ (∀ a, Cells dest b a → W a) :=
+  fun b s h1 h2 h3 => ⟨fun a ⟨g1, g2⟩ => hr a ⟨g1, by have := hov b s h1 h2 h3; omega⟩,
+    fun a ⟨g1, g2⟩ => hw a ⟨g1, by have := hov b s h1 h2 h3; omega⟩⟩
 
 /-- **strcpy_s / its generic form** -/
 theorem strcpyG_accs (max : Nat) (cfg : Cfg) (dest dmax src : Nat) (b : Bos)
@@ -74,7 +84,7 @@ theorem strcpyG_accs (max : Nat) (cfg : Cfg) (dest dmax src : Nat) (b : Bos)
 
 /-- **strncpy_s / its generic form** -/
 theorem strncpyG_accs (max : Nat) (cfg : Cfg) (dest dmax src slen : Nat) (db sb : Bos)
-    (hov : ∀ b s, db = some b → sb = some s → s < slen → b ≤ dmax)
+    (hob : dest ≠ 0 → ∀ b s, db = some b → sb = some s → s < slen → (∀ a, Cells dest b a → R a) ∧ (∀ a, Cells dest b a → W a))
     (hrs : src ≠ 0 → ∀ a, Str d src (min dmax slen) a → R a)
     (hrd : dest ≠ 0 → ∀ a, Cells dest dmax a → R a) (hw : dest ≠ 0 → ∀ a, Cells dest dmax a → W a) :
     AccS R W d (strncpyG max cfg dest dmax src slen db sb) (fun _ _ => True) := by
@@ -89,7 +99,7 @@ theorem strncpyG_accs (max : Nat) (cfg : Cfg) (dest dmax src slen : Nat) (db sb 
   · exact AccS_failS _ trivial
   rename_i hm
   have h0 : W dest := hw hd _ ⟨Nat.le_refl _, by omega⟩
-  refine AccS_chkDmaxClear cfg dest dmax db max hm (hrd hd) (hw hd) ?_
+  refine AccS_chkDmaxClear' cfg dest dmax db max hm (hrd hd) (hw hd) (fun hle => ?_)
   split
   · exact AccS_errRet cfg dest dmax _ _ (hw hd) h0
   rename_i hs
@@ -99,7 +109,7 @@ theorem strncpyG_accs (max : Nat) (cfg : Cfg) (dest dmax src slen : Nat) (db sb 
   · rename_i s
     split
     · rename_i hgt
-      exact AccS_bosOverflow cfg dest dmax db hm (fun b hb => hov b s hb rfl hgt) (hrd hd) (hw hd)
+      exact AccS_bosOverflow cfg dest dmax db hm (fun b hb => hob hd b s hb rfl hgt) hle (hw hd)
     · exact body
   · exact body
 
@@ -145,7 +155,7 @@ theorem AccS_wcatSlen0 (cfg : Cfg) (dest dmax : Nat) (hpos : dmax ≠ 0)
 
 /-- **strncat_s / its generic form** -/
 theorem strncatG_accs (max : Nat) (cfg : Cfg) (dest dmax src slen : Nat) (db sb : Bos)
-    (hov : ∀ b s, db = some b → sb = some s → s < slen → b ≤ dmax)
+    (hob : dest ≠ 0 → ∀ b s, db = some b → sb = some s → s < slen → (∀ a, Cells dest b a → R a) ∧ (∀ a, Cells dest b a → W a))
     (hrs : src ≠ 0 → ∀ a, Str d src (min dmax slen) a → R a)
     (hrd : dest ≠ 0 → ∀ a, Cells dest dmax a → R a) (hw : dest ≠ 0 → ∀ a, Cells dest dmax a → W a) :
     AccS R W d (strncatG max cfg dest dmax src slen db sb) (fun _ _ => True) := by
@@ -159,7 +169,7 @@ theorem strncatG_accs (max : Nat) (cfg : Cfg) (dest dmax src slen : Nat) (db sb 
   · exact AccS_failS _ trivial
   rename_i hm
   have h0 : W dest := hw hd _ ⟨Nat.le_refl _, by omega⟩
-  refine AccS_chkDmaxClear cfg dest dmax db max hm (hrd hd) (hw hd) ?_
+  refine AccS_chkDmaxClear' cfg dest dmax db max hm (hrd hd) (hw hd) (fun hle => ?_)
   split
   · exact AccS_errRet cfg dest dmax _ _ (hw hd) h0
   rename_i hs
@@ -172,7 +182,7 @@ theorem strncatG_accs (max : Nat) (cfg : Cfg) (dest dmax src slen : Nat) (db sb 
   · rename_i s
     split
     · rename_i hgt
-      exact AccS_bosOverflow cfg dest dmax db hm (fun b hb => hov b s hb rfl hgt) (hrd hd) (hw hd)
+      exact AccS_bosOverflow cfg dest dmax db hm (fun b hb => hob hd b s hb rfl hgt) hle (hw hd)
     · exact body
   · exact body
 
